@@ -97,7 +97,7 @@ PROPS = {
         "level": "exploration",
         "level_text": "Generated search with shrinking: for every generated tree e and ~40 references (layers of e, sentinel pool, independent tree, "
                       "near-equal perturbed copies) Is(e, r) is evaluated locally and again, always at a knowing process, after each of 1-3 hops of e, of r, and "
-                      "of both, where every hop is drawn from {knowing process, process that knows none of e's families, process that knows a random subset}.",
+                      "of both, where every hop is drawn from {knowing process, process that knows none of e's families, process that knows a random subset}. Also evaluated inside an unknowing intermediary (except where barriers, status errors or withMark are or have been unknown there: known findings F14/F15, explicit marks), with Mark references that are bare leaves and may have the empty message, and over structural extremes (chains of 13-70 layers, 13-65 branches).",
         "level_note": "Unknowing processes are simulated by registry restriction (build-tag hook). The statement's exemption (local match that exists only through "
                       "an identity-comparing Is method may vanish once r is transferred) is decided by the independent Is model of C08 evaluated without Is methods. "
                       "Is is not evaluated *at* an unknowing process (DESIGN.md 6.2).",
@@ -115,7 +115,7 @@ PROPS = {
                       "and registered user multi types; nil arguments to Join; nested multi nodes; branches that are wrapped chains) and checked against: the tree "
                       "model for Is/IsAny (self or some branch), a reference As (first match in branch order, same assigned value), Unwrap/UnwrapOnce/UnwrapAll leaf "
                       "behaviour, Join's argument/nil/text rules, one %+v entry per layer with every branch's text, and shape/text equality after 1-2 hops to knowing "
-                      "and unknowing receivers.",
+                      "and unknowing receivers. Multi-cause kinds include the sub-package Join and user types with an Is method or a Cause() method (local checks only); %+v must show every branch at every receiver.",
         "level_note": "The self-match of a multi node is taken from the C08 model only; unknowing receivers never include the families of the C04 known findings (F14/F15).",
         "technique": "property-based testing (rapid): constructed multi-cause trees, reference model for Is, differential reference As, round-trip shape oracle",
         "rule": "rapid-constructed trees: a multi-cause node of a drawn kind with 1-3 generated branches under 0-3 drawn wrappers; receiver drawn from {knowing, all "
@@ -193,7 +193,7 @@ PROPS = {
         "level_text": "Generated taint search with shrinking (the dual of C03): every string that enters through a channel the library declares PII-free (constant "
                       "messages and format literals, Safe() arguments, telemetry keys, domains, issue links, tag keys) carries a unique token which must be found in the "
                       "Sentry event/extras or GetAllSafeDetails, locally and after 1-2 hops; trees are constructed with a sub-tree behind a barrier or in secondary "
-                      "position; type names of all layers and the innermost frame of every stack must be present as well.",
+                      "position; type names of all layers and the innermost frame of every stack must be present as well. Also: error-typed arguments of NewAssertionErrorWithWrappedErrf, a secondary error mark-equal to the primary one with other safe annotations, and the safe details a foreign type with its own stack trace reports for itself (visible chain).",
         "level_note": "Only the library's own declared-safe channels are claimed; strings inside a Mark reference are not (only its mark is kept).",
         "technique": "property-based testing (rapid) with taint tokens: retention oracle over the Sentry report and safe details",
         "rule": "rapid-constructed trees: a generated sub-tree (boosted safe-carrying kinds) placed behind a drawn barrier kind / as secondary error / visible, under 0-4 "
@@ -211,7 +211,7 @@ PROPS = {
                       "garbage bytes} x detail lists {0, 1, 4} x message type {0, 1, 7} is decoded from real bytes and then used in every way (all verbs through fmt, "
                       "Formattable and redact, all accessors, safe details, report, re-encode, re-decode, Is, UnwrapAll) under recover, scanning for panics swallowed "
                       "by fmt. A rapid part applies 1-4 random mutations (swap/drop/empty/garble payloads, truncate/extend details, retarget families, change message "
-                      "types) to valid encodings of generated trees over hostile strings. Thorough adds native fuzzing of raw wire bytes.",
+                      "types) to valid encodings of generated trees over hostile strings. Thorough adds native fuzzing of raw wire bytes. The mutation part also rewrites printed stacks over their grammar, and every decoded error is exercised with Is/IsAny against a transferred copy of each of its layers.",
         "level_note": "Nested EncodedError payloads are kept structurally complete (the property's precondition applies to nested errors too), so the 'empty "
                       "EncodedError' payload is not part of the grid.",
         "technique": "exhaustive fault-grid enumeration over the live decoder registries + property-based mutation of valid encodings (rapid); thorough: Go native fuzzing of wire bytes",
@@ -327,7 +327,7 @@ PROPS = {
                       "stacks; multi-cause included) the Sentry event is compared with an independent walk of the tree: message = [file:line: ] + the redacted "
                       "%+v + '-- report composition:' + exactly one line per layer (innermost first, each naming its layer's type); exceptions = the layers "
                       "that carry a reportable stack, outermost first, frames deep-equal to GetReportableStackTrace of that layer, exactly one stack-less "
-                      "exception when none; module = GetDomain; the 'error types' extra has one line '<type> (<family or *>::<extension>)' per layer, innermost first.",
+                      "exception when none; module = GetDomain; the 'error types' extra has one line '<type> (<family or *>::<extension>)' per layer, innermost first. The expected domain, file:line prefix, type and extension of every line and the number of frames per exception come from the case description and the program counters of the locally built error, not from the library's accessors.",
         "level_note": "The walk order of the report (node, single cause, then branches) is reproduced by an independent pre-order walk of the harness; only the "
                       "structure is checked here, PII-safety and retention are C03/C12.",
         "technique": "property-based testing (rapid): structural oracle relating BuildSentryReport to an independent tree walk and per-layer accessors",
@@ -346,7 +346,7 @@ PROPS = {
                       "reachable through Unwrap/Cause/UnwrapAll/multi-cause traversal; (ii) metamorphic non-interference: replacing every hidden sub-tree by "
                       "stdlib errors.New(H.Error()) changes neither Error(), nor any accessor, nor any Is/IsAny/HasType/As/If answer against fresh copies of "
                       "H's nodes, the sentinel pool and 19 As targets, locally and after 1-2 hops; for Mark, dropping the Mark layer changes no accessor that "
-                      "is not decided by Is; (iii) Handled* text as documented; (iv) every token of H's text is visible in %+v.",
+                      "is not decided by Is; (iii) Handled* text as documented; (iv) every token of H's text is visible in %+v. Further oracles: Is over copies of all hidden nodes and the sentinels equals the model's Is over the visible layers; %+v shows the text of every hidden node at every hop; every safe detail of a hidden chain is among the safe details of the layer that hides it, a barrier's details render every hidden layer, and a hiding layer held as an opaque value by a process that does not know it still reports the origin's details.",
         "level_note": "Mark references are kept (not replaced) when Is is compared, because the mark is exactly what Mark contributes (C08 models it); stack and "
                       "safe-detail layers of the barrier itself are excluded from the snapshot comparison.",
         "technique": "property-based testing (rapid): metamorphic oracle (replace hidden sub-tree by a plain error with the same text) + identity-based reachability check",
